@@ -267,7 +267,7 @@ def check_oracle(rep, b):
         ok = False
     if b.dup is not None:
         rep.violation('oracle:duplicate', 'a row is reported twice',
-                      {**b.meta(), 'queries': [b.queries[b.dup]], 'impl': list(b.impl[b.dup])})
+                      {**b.meta(), 'failing_query': b.queries[b.dup], 'impl': list(b.impl[b.dup])})
         return False
     if not U.well_formed(rows, d):
         return ok      # reversed boxes: only the model comparison applies (theorems need min <= max)
@@ -288,13 +288,13 @@ def check_oracle(rep, b):
                 pass
             rep.violation(f'oracle:intersects:{kind}',
                           'intersects does not return exactly the overlapping rows',
-                          {**b.meta(), 'queries': [q], 'impl': sorted(it), 'expected': ei,
+                          {**b.meta(), 'failing_query': q, 'impl': sorted(it), 'expected': ei,
                            'check': U.brute(rows, q, d)})
             return False
         if sorted(cv) != ec or sorted(ov) != eo:
             rep.violation('oracle:covers_overlaps',
                           'covers_overlaps does not split the overlapping rows into covered / partial',
-                          {**b.meta(), 'queries': [q], 'impl': [sorted(cv), sorted(ov)],
+                          {**b.meta(), 'failing_query': q, 'impl': [sorted(cv), sorted(ov)],
                            'expected': [ec, eo]})
             return False
         if ei and len(ei) < nfin:
@@ -324,7 +324,7 @@ def check_pickle(rep, b):
         if it2 != it or [int(x) for x in cv2] != cv or [int(x) for x in ov2] != ov \
                 or not _same_floats([float(x) for x in t2.total_bounds], b.tb):
             rep.violation('pickle-differs', 'a pickled and reloaded index answers differently',
-                          {**b.meta(), 'queries': [q]})
+                          {**b.meta(), 'failing_query': q})
             return
     rep.count('pickle_roundtrip')
 
@@ -403,39 +403,60 @@ def run(rep):
     nb = 0
     seen = set()
 
+    import concurrent.futures as _cf
+    pool = _cf.ThreadPoolExecutor(max_workers=1)
+    pending = []      # (kind, what, group, future): kernel evaluations running beside the Python side
+
+    def _mism(fn, cty, rty, group):
+        return C.coq_mismatches(IMPORTS, fn, cty, rty, [g[1] for g in group], [g[2] for g in group],
+                                shard=max(40, min(400, len(group) // (3 * C.NCPU) + 1)), timeout=1500)
+
     def flush_public(group, fn, cty):
-        # kernel evaluation of the model on the accumulated builds (bounded memory)
+        # kernel evaluation of the model on the accumulated builds (bounded memory); runs in the
+        # background (coqc subprocesses) while the next builds are produced
         if not group:
             return
-        bad = C.coq_mismatches(IMPORTS, fn, cty, PUB_RES, [g[1] for g in group], [g[2] for g in group],
-                               shard=max(40, min(400, len(group) // (3 * C.NCPU) + 1)), timeout=1500)
-        for i in bad:
-            if len(seen) > 6:
-                break
-            sig, what, rp = diagnose(Build(*group[i][0]).run())
-            if sig in seen:
-                continue
-            seen.add(sig)
-            rep.violation(sig, what, rp)
+        mine = list(group)
         del group[:]
+        pending.append(('public', fn, mine, pool.submit(_mism, fn, cty, PUB_RES, mine)))
 
     def flush_internal(group, fn, cty, rty, what):
         if not group:
             return
-        try:
-            bad = C.coq_mismatches(IMPORTS, fn, cty, rty, [g[1] for g in group], [g[2] for g in group],
-                                   shard=max(40, min(400, len(group) // (3 * C.NCPU) + 1)), timeout=1500)
-        except C.ModelUnavailable:
-            rep.count('internal-unavailable:' + what, len(group))
-            del group[:]
-            return
-        rep.count('internal-compared:' + what, len(group))
-        if bad:
-            rep.count('internal-differs-public-agrees', len(bad))
-            rep.extra.setdefault('internal_differs_example',
-                                 {'what': what, **C.jsonable(dict(zip(
-                                     ('d', 'rows', 'page_size', 'p'), group[bad[0]][0][:4])))})
+        mine = list(group)
         del group[:]
+        pending.append(('internal', what, mine, pool.submit(_mism, fn, cty, rty, mine)))
+
+    def join():
+        err = None
+        for kind, what, group, fut in pending:
+            try:
+                bad = fut.result()
+            except C.ModelUnavailable as e:
+                if kind == 'internal':
+                    rep.count('internal-unavailable:' + what, len(group))
+                    continue
+                err = err or e
+                continue
+            if kind == 'internal':
+                rep.count('internal-compared:' + what, len(group))
+                if bad:
+                    rep.count('internal-differs-public-agrees', len(bad))
+                    rep.extra.setdefault('internal_differs_example',
+                                         {'what': what, **C.jsonable(dict(zip(
+                                             ('d', 'rows', 'page_size', 'p'), group[bad[0]][0][:4])))})
+                continue
+            for i in bad:
+                if len(seen) > 6:
+                    break
+                sig, what2, rp = diagnose(Build(*group[i][0]).run())
+                if sig in seen:
+                    continue
+                seen.add(sig)
+                rep.violation(sig, what2, rp)
+        del pending[:]
+        if err:
+            raise err
 
     for d, rows, ps, p, queries, tag in gen_builds(rep, tier):
         nb += 1
@@ -485,28 +506,35 @@ def run(rep):
             # reversed rows: outside the theorems, the answer depends on the permutation
             ifull.append((light, b.case_full(), b.result_full()))
         del b
-        if len(pub) >= 8000:
+        if len(pub) >= 2500:
             flush_public(pub, PUB_FN, PUB_TY)
-        if len(pub1) >= 12000:
+        if len(pub1) >= 4000 or (pub1 and queries is not Q1D):
             flush_public(pub1, PUB1_FN, PUB1_TY)
         if len(itree) >= 20000:
             flush_internal(itree, TREE_FN, TREE_TY, TREE_RES, '_bounds_tree')
+        if len(pending) >= 8:
+            join()          # bounded memory in the thorough tier
     flush_public(pub1, PUB1_FN, PUB1_TY)
     flush_public(pub, PUB_FN, PUB_TY)
-    rep.extra['t_public_s'] = round(_t.time() - rep.t0, 1)
     rep.extra['builds'] = nb
     if rep.violations:
         # already refuted through the public API: the remaining sweeps add nothing
+        join()
         rep.count('skipped-after-violation:sizes,internals')
         run_log2(rep, tier)
         return
     flush_internal(itree, TREE_FN, TREE_TY, TREE_RES, '_bounds_tree')
     flush_internal(ifull, FULL_FN, CASE_TY, FULL_RES, 'reversed-rows')
     rep.extra['cpu_python_s'] = round(_t.process_time(), 1)
-    rep.extra['t_coq_s'] = round(_t.time() - rep.t0, 1)
+    rep.extra['t_builds_s'] = round(_t.time() - rep.t0, 1)
     run_reused(rep, tier)
     run_sizes(rep, tier)
     rep.extra['t_sizes_s'] = round(_t.time() - rep.t0, 1)
+    join()
+    rep.extra['t_joined_s'] = round(_t.time() - rep.t0, 1)
+    if rep.violations:
+        run_log2(rep, tier)
+        return
     run_ranges(rep, tier)
     rep.extra['t_ranges_s'] = round(_t.time() - rep.t0, 1)
     run_log2(rep, tier)
@@ -588,7 +616,7 @@ def diagnose(b):
         for j, (m, tr) in enumerate(zip(mper, impl_sorted)):
             m = [list(z) for z in m]
             if m != tr:
-                rp2 = {**rp, 'queries': [b.queries[j]], 'model': m, 'impl': tr}
+                rp2 = {**rp, 'failing_query': b.queries[j], 'model': m, 'impl': tr}
                 if m[0] != tr[0]:
                     return ('model:intersects', 'intersects differs from the proven model', rp2)
                 return ('model:covers_overlaps', 'covers_overlaps differs from the proven model', rp2)
@@ -692,7 +720,7 @@ def run_ranges(rep, tier):
         except Exception:
             rep.count('internal-unavailable:node_ranges')
             return
-        if tier != 'quick' or n <= 48 or (n * 31 + ps) % 10 == 0:
+        if tier != 'quick' or n <= 32 or (n * 31 + ps) % 20 == 0:
             shape_cases.append((N(n), N(ps)))
             shape_res.append((N(m), N(ls)))
         node = np.arange(m)
